@@ -26,8 +26,15 @@ Contents == {[class |-> "zeros"], [class |-> "ones"], [class |-> "text"], [class
             \cup {[class |-> "period", p |-> p] : p \in {2, 3, 4, 7, 8, 15, 16, 31, 32, 63, 64}}
             \cup {[class |-> "ratio", r |-> r] : r \in {2, 4, 8, 9, 16, 50, 100, 250}}
 
+\* every size in a dense range, for the two contents that bracket the compressors' behaviour (incompressible / compressible):
+\* buffer-sizing mistakes live at sizes nobody thinks of as boundaries
+DenseSizes == 0..(IF Thorough THEN 20000 ELSE 6000)
+Dense == {[algo |-> c.algo, format |-> c.format, size |-> n, content |-> k] : c \in Combos, n \in DenseSizes,
+             k \in {[class |-> "rand"], [class |-> "text"]}}
+
 Descriptors == {[algo |-> c.algo, format |-> c.format, size |-> n, content |-> k] : c \in Combos, n \in UNION {SizesFor(c) : c \in Combos}, k \in Contents}
-Valid(d) == d.size \in SizesFor([algo |-> d.algo, format |-> d.format])
+               \cup Dense
+Valid(d) == d.size \in SizesFor([algo |-> d.algo, format |-> d.format]) \/ d \in Dense
 
 VARIABLE x
 Init == x = 0 /\ \A d \in {d \in Descriptors : Valid(d)} : PrintT(<<"GEN", ToJson(d)>>)
